@@ -166,3 +166,84 @@ Proof.
   - assert (p = q) by (eapply pk_unique_inj; eauto; congruence). subst p. congruence.
   - eapply Hnone; [exact Hp | congruence | lia].
 Qed.
+
+(* ---- vacuum preserves every "as of transaction x" lookup ----
+   The newest version of an entity at or below any transaction id x is, after vacuum, a surviving
+   row that agrees with it in every non-key column.  (Stated over the surviving rows of t, i.e. over
+   `vacuum t` by vacuum_members below.) *)
+Lemma vrow_eq_dec (a b : vrow) : {a = b} + {a <> b}.
+Proof. repeat decide equality. Qed.
+
+Lemma same_data_refl r : same_data r r = true.
+Proof. apply same_data_spec. repeat split. Qed.
+
+Theorem vacuum_preserves_as_of t k x r :
+  pk_unique t -> In r t -> vkey r = k -> vtx r <= x ->
+  (forall q, In q t -> vkey q = k -> vtx q <= x -> vtx q <= vtx r) ->
+  exists r', In r' t /\ ~ In r' (vacuum_deleted t) /\ vkey r' = k /\ vtx r' <= vtx r /\
+     same_data r' r = true /\
+     (forall q, In q t -> ~ In q (vacuum_deleted t) -> vkey q = k -> vtx q <= x -> vtx q <= vtx r').
+Proof.
+  intros U Hr Hk Hx Hmax.
+  destruct (in_dec vrow_eq_dec r (vacuum_deleted t)) as [Hd|Hn].
+  - destruct (vacuum_only_equal_to_surviving_predecessor t r U Hd)
+      as [p [Hp [Hpk [Hlt [Hpn [Hsd Hbetween]]]]]].
+    exists p. repeat split; try assumption; try congruence; try lia.
+    intros q Hq Hqn Hqk Hqx.
+    pose proof (Hmax q Hq Hqk Hqx) as Hle.
+    destruct (Z.eq_dec (vtx q) (vtx r)) as [E|Ne].
+    + exfalso. apply Hqn. replace q with r; [exact Hd|].
+      eapply pk_unique_inj; eauto. congruence.
+    + destruct (Z_lt_le_dec (vtx p) (vtx q)) as [Hpq|Hpq]; [|exact Hpq].
+      exfalso. apply Hqn. apply Hbetween; [exact Hq | congruence | lia].
+  - exists r. repeat split; try assumption; try lia; [apply same_data_refl|].
+    intros q Hq _ Hqk Hqx. apply Hmax; assumption.
+Qed.
+
+Lemma vacuum_members t r :
+  In r (vacuum t) <-> In r t /\ in_table (vacuum_deleted t) r = false.
+Proof.
+  unfold vacuum. rewrite filter_In, negb_true_iff. tauto.
+Qed.
+
+Lemma in_table_spec t D r :
+  pk_unique t -> In r t -> (forall d, In d D -> In d t) ->
+  (in_table D r = true <-> In r D).
+Proof.
+  intros U Hr Sub. unfold in_table, find_row. split.
+  - destruct (find _ D) as [d|] eqn:F; [intros _|discriminate].
+    apply find_some in F as [Hd Hm]. apply andb_true_iff in Hm as [Hk Ht].
+    apply same_key_eq in Hk. apply Z.eqb_eq in Ht.
+    replace r with d; [exact Hd|]. eapply pk_unique_inj; eauto.
+  - intro Hd. destruct (find _ D) as [d|] eqn:F; [reflexivity|].
+    exfalso. pose proof (find_none _ _ F r Hd) as Hn. simpl in Hn.
+    assert (same_key (vkey r) r = true) by (apply same_key_eq; reflexivity).
+    rewrite H, Z.eqb_refl in Hn. discriminate.
+Qed.
+
+Lemma vacuum_survivor t r :
+  pk_unique t -> (In r (vacuum t) <-> In r t /\ ~ In r (vacuum_deleted t)).
+Proof.
+  intro U. rewrite vacuum_members. split; intros [Hr H]; split; try exact Hr.
+  - intro Hd. apply (in_table_spec t (vacuum_deleted t) r U Hr) in Hd.
+    + congruence.
+    + intros d Hd'. apply in_vacuum_deleted in Hd'. tauto.
+  - destruct (in_table (vacuum_deleted t) r) eqn:E; [|reflexivity].
+    exfalso. apply H. apply (in_table_spec t (vacuum_deleted t) r U Hr); [|exact E].
+    intros d Hd'. apply in_vacuum_deleted in Hd'. tauto.
+Qed.
+
+(* the as-of lookup, stated on the tables before and after vacuum *)
+Theorem vacuum_as_of t k x r :
+  pk_unique t -> In r t -> vkey r = k -> vtx r <= x ->
+  (forall q, In q t -> vkey q = k -> vtx q <= x -> vtx q <= vtx r) ->
+  exists r', In r' (vacuum t) /\ vkey r' = k /\ vtx r' <= x /\ same_data r' r = true /\
+     (forall q, In q (vacuum t) -> vkey q = k -> vtx q <= x -> vtx q <= vtx r').
+Proof.
+  intros U Hr Hk Hx Hmax.
+  destruct (vacuum_preserves_as_of t k x r U Hr Hk Hx Hmax)
+    as [r' [Hin [Hn [Hk' [Hle [Hsd Hmax']]]]]].
+  exists r'. repeat split; try assumption; try lia.
+  - apply vacuum_survivor; auto.
+  - intros q Hq Hqk Hqx. apply vacuum_survivor in Hq as [Hq Hqn]; [|exact U]. auto.
+Qed.
